@@ -32,6 +32,12 @@ def main():
             for f in os.listdir(g):
                 if f.endswith(".tla"):
                     shutil.copy(os.path.join(g, f), scratch)
+        # modules generated at check time from /repo's data files: a small instance is enough for parsing
+        from lib import eopgen
+        repo = os.environ.get("VERIF_REPO", "/repo")
+        mod, _steps, _ut1 = eopgen.eop_module(repo, list(range(50000, 50010)))
+        with open(os.path.join(scratch, "EopData.tla"), "w") as fh:
+            fh.write(mod)
         for f in mods:
             good, out = tlc.sany(os.path.join(scratch, f))
             print(f"sany {f}: {'ok' if good else 'FAILED'}")
